@@ -1,7 +1,7 @@
 SPECIFICATION Spec
 CONSTANTS Cfg <- TheCfg
- Wedge = TRUE
- MakeOnPending = "cancel"
+ Wedge = FALSE
+ MakeOnPending = "replace"
  FireDropsBs = FALSE
  MaxN = 5
 CONSTRAINT Bound
@@ -10,6 +10,7 @@ INVARIANT DoorsWellFormed
 INVARIANT StoreCovers
 INVARIANT GenUnique
 INVARIANT StoreIsLive
+INVARIANT RelockScheduledUndisturbed
 INVARIANT Export
 PROPERTY RestartInvisible
 CHECK_DEADLOCK FALSE
